@@ -193,7 +193,9 @@ def monitorC13 (script : List Cmd) (iters : List Iter) : Option String :=
   -- afterwards, so the clauses about what must ARRIVE on a channel do not judge them
   let dropped (d ch : Nat) : Bool := script.any fun c =>
     match c with | .other ["dropchan", d', ch'] => d'.toNat? == some d && ch'.toNat? == some ch | _ => false
-  let browseClause := calls.findSome? fun ((c, k0) : Cmd × Nat) =>
+  -- position of a processed call in processing order (calls of one iteration run in script order)
+  let callsIdx := calls.zipIdx
+  let browseClause := callsIdx.findSome? fun (((c, k0), p0) : (Cmd × Nat) × Nat) =>
     match c with
     | .browse d ch ty cacheOnly =>
       let evs := chanEvents iters d ch
@@ -203,9 +205,9 @@ def monitorC13 (script : List Cmd) (iters : List Iter) : Option String :=
         match c' with
         | .browse d' _ ty' _ => if d' == d && ty' == ty && k > k0 then some k else none
         | _ => none).foldl min (10 ^ 18)
-      let stopAt := (calls.filterMap fun ((c', k) : Cmd × Nat) =>
+      let stopAt := (callsIdx.filterMap fun (((c', k), p) : (Cmd × Nat) × Nat) =>
         match c' with
-        | .stopBrowse d' ty' => if d' == d && ty' == ty && k ≥ k0 && k ≤ laterStart then some k else none
+        | .stopBrowse d' ty' => if d' == d && ty' == ty && p > p0 && k ≥ k0 && k ≤ laterStart then some k else none
         | _ => none).head?
       let endAt := match stopAt, shutdownAt d with
         | some a, some b => some (min a b)
@@ -271,7 +273,7 @@ def monitorC13 (script : List Cmd) (iters : List Iter) : Option String :=
         | some (false, qs, _) =>
           some s!"cache-only-daemon-sends-query d={d} t={it.now} q={joinToks (qs.map fun ((n, t) : BList × Nat) => s!"{hexOfBytes n}:{t}")}"
         | _ => none
-  let hostClause := calls.findSome? fun ((c, k0) : Cmd × Nat) =>
+  let hostClause := callsIdx.findSome? fun (((c, k0), p0) : (Cmd × Nat) × Nat) =>
     match c with
     | .resolve d ch host timeout =>
       let evs := chanEvents iters d ch
@@ -280,9 +282,9 @@ def monitorC13 (script : List Cmd) (iters : List Iter) : Option String :=
         match c' with
         | .resolve d' _ h' _ => if d' == d && lower h' == lower host && k > k0 then some k else none
         | _ => none).foldl min (10 ^ 18)
-      let stopAt := (calls.filterMap fun ((c', k) : Cmd × Nat) =>
+      let stopAt := (callsIdx.filterMap fun (((c', k), p) : (Cmd × Nat) × Nat) =>
         match c' with
-        | .stopResolve d' h' => if d' == d && lower h' == lower host && k ≥ k0 && k ≤ laterStart then some k else none
+        | .stopResolve d' h' => if d' == d && lower h' == lower host && p > p0 && k ≥ k0 && k ≤ laterStart then some k else none
         | _ => none).head?
       -- the deadline, if a time-out was given
       let t0 := (itArr[k0]?.map (·.now)).getD 0
